@@ -321,3 +321,41 @@ def owner_only_writes(repo: Repo, R, rule: str, why: str):
             hits += 1
     if hits != 2:
         raise AnalysisError("self-check of the conns-writer scanner failed")
+
+
+# --------------------------------------------------------------------------
+# re-attaching a clause of one property to another
+# --------------------------------------------------------------------------
+
+
+class Retag:
+    """Reporter view that files obligations under another rule id.
+
+    `fn(rule) -> new rule id | None` (None drops the obligation).  `why` may be
+    overridden to say how the clause bears on the property it is attached to.
+    Floors set by the wrapped function are dropped (the attaching module sets its own)."""
+
+    def __init__(self, R, fn, why=None):
+        self._R, self._fn, self._why = R, fn, why
+
+    def __getattr__(self, k):
+        return getattr(self._R, k)
+
+    def ok(self, rule, key, site, detail, nontrivial=True):
+        r = self._fn(rule)
+        if r:
+            self._R.ok(r, key, site, detail, nontrivial)
+
+    def bad(self, rule, key, site, detail, why=""):
+        r = self._fn(rule)
+        if r:
+            self._R.bad(r, key, site, detail, self._why or why)
+
+    def check(self, cond, rule, key, site, detail, why="", nontrivial=True):
+        r = self._fn(rule)
+        if r:
+            return self._R.check(cond, r, key, site, detail, self._why or why, nontrivial)
+        return cond
+
+    def floor(self, rule, n):
+        pass
